@@ -167,4 +167,22 @@ PROPS = {
             "the regex crate's implementation of `<([^>\\s]+)>` with replace_all: the model's scanner (leftmost, non-overlapping, Unicode White_Space) is tied to it by the differential",
         ],
     },
+    "C19": {
+        "module": "Cuke.Props.C19",
+        "namespace": "Cuke.C19",
+        "families": [("zoo.reg", 3, 3), ("zoo.dispatch", 2500, 100000)],
+        "modelled_not_verified": [
+            "macro expansion (syn/quote), inventory registration, regex::escape, cucumber-expressions: decided by the differential over the zoo compiled with the real macros, not by a theorem",
+            "the zoo is a representative sample of signatures (sync/async, ()/Result, typed args, slice, #[step], literal/regex/expr, custom multi-group Parameter, two attributes on one fn, two Worlds)",
+        ],
+    },
+    "C20": {
+        "module": "Cuke.Props.C20",
+        "namespace": "Cuke.C20",
+        "families": [("trace.run", 120, 3000)],
+        "modelled_not_verified": [
+            "tracing / tracing-subscriber (one write per event, on_close on span drop) and the global dispatcher: one real run per child process",
+            "the protocol model is NOT replayed against probes inside src/tracing.rs; the tie is end-to-end (monitor on the event stream of real runs)",
+        ],
+    },
 }
